@@ -585,7 +585,14 @@ func handleInputStream(s *Session, handler Handler) (err error) {
 	}
 
 	// If this is a stanza, normalize the "from" attribute.
-	if stanza.Is(start.Name, s.in.XMLNS) {
+	// With WebSocket framing the namespace of the peer's <open/> header is the
+	// framing namespace, not the content namespace: stanzas are in the content
+	// namespace that both directions of the session use.
+	contentNS := s.in.XMLNS
+	if s.ws {
+		contentNS = s.out.XMLNS
+	}
+	if stanza.Is(start.Name, contentNS) {
 		for i, attr := range start.Attr {
 			if attr.Name.Local == "from" && attr.Name.Space == "" {
 				local := s.LocalAddr().Bare().String()
